@@ -21,8 +21,11 @@ def M(sys, n, flags, pay="u16", mode="live", hint=8, inject=0, crash=0, cap_s=30
     return {"args": a, "label": label or f"{sys}<{pay}> N={n} {mode} hint={hint}" + (f" inject<={inject}" if inject else "") + (" crash-only" if crash else "")}
 
 
-def K(sys, n, t, flags, mode="live", hint=8, inject=0, crash=0, cap_s=3000, max_states=None, label=None):
+def K(sys, n, t, flags, mode="live", hint=8, inject=0, crash=0, cap_s=3000, max_states=None, label=None, tbase=0):
     a = ["bfs", "--sys", sys, "--n", str(n), "--t", str(t), "--mode", mode, "--hint", str(hint), "--flags", flags, "--max-secs", str(cap_s)]
+    if tbase:
+        a += ["--tbase", str(tbase)]
+        label = label or f"{sys} N={n} T={t} {mode} hint={hint} times {tbase}..{tbase + t + 1} (top of the u8 time type)"
     if inject:
         a += ["--inject", str(inject)]
     if crash:
@@ -60,16 +63,16 @@ SPECS = {}
 
 # --- expiring-key tree -------------------------------------------------------
 SPECS["C01"] = {
-    "quick": [K("ktree", 4, 3, KA + ",o_pred"), K("ktree", 3, 3, KA + ",o_pred"), K("ktree", 3, 2, KA + ",o_pred", mode="full"), K("ktree", 8, 0, "fleby,clear,o_pred", mode="shape", label="ktree N=8 T=0 shape (arena growth)")],
+    "quick": [K("ktree", 3, 3, KA + ",o_pred", tbase=251), K("ktree", 4, 3, KA + ",o_pred"), K("ktree", 3, 3, KA + ",o_pred"), K("ktree", 3, 2, KA + ",o_pred", mode="full"), K("ktree", 8, 0, "fleby,clear,o_pred", mode="shape", label="ktree N=8 T=0 shape (arena growth)")],
     "thorough": [K("ktree", 4, 4, KA + ",o_pred"), K("ktree", 5, 2, KA + ",o_pred", cap_s=900), K("ktree", 3, 3, KA + ",o_pred", mode="full"),
                  K("ktree", 8, 1, "fle,fleby,clear,o_pred", mode="shape", cap_s=900), K("ktree", 4, 3, KA + ",o_pred", hint=9)],
 }
 SPECS["C06"] = {
-    "quick": [K("ktree", 4, 3, KA + ",o_get"), K("ktree", 3, 3, KA + ",o_get"), K("ktree", 3, 2, KA + ",o_get", mode="full"), K("ktree", 8, 0, "get,clear,o_get", mode="shape")],
+    "quick": [K("ktree", 3, 3, KA + ",o_get", tbase=251), K("ktree", 4, 3, KA + ",o_get"), K("ktree", 3, 3, KA + ",o_get"), K("ktree", 3, 2, KA + ",o_get", mode="full"), K("ktree", 8, 0, "get,clear,o_get", mode="shape")],
     "thorough": [K("ktree", 4, 4, KA + ",o_get"), K("ktree", 5, 2, KA + ",o_get", cap_s=900), K("ktree", 3, 3, KA + ",o_get", mode="full"), K("ktree", 9, 1, "get,clear,o_get", mode="shape", cap_s=900)],
 }
 SPECS["C07"] = {
-    "quick": [K("ktree", 4, 2, KA + ",o_export"), K("ktree", 3, 3, KA + ",o_export"), K("klist", 3, 3, KA + ",o_export"), K("ktree", 3, 2, KA + ",o_export", mode="full")],
+    "quick": [K("ktree", 3, 3, KA + ",o_export", tbase=251), K("klist", 3, 3, KA + ",o_export", tbase=251), K("ktree", 4, 2, KA + ",o_export"), K("ktree", 3, 3, KA + ",o_export"), K("klist", 3, 3, KA + ",o_export"), K("ktree", 3, 2, KA + ",o_export", mode="full")],
     "thorough": [K("ktree", 4, 4, KA + ",o_export", cap_s=1200), K("klist", 4, 4, KA + ",o_export"), K("ktree", 3, 3, KA + ",o_export", mode="full"), K("ktree", 8, 0, "fleby,clear,o_export", mode="shape")],
 }
 SPECS["C19"] = {
@@ -77,7 +80,7 @@ SPECS["C19"] = {
     "thorough": [K("ktree", 4, 3, KA + ",o_cap"), K("ktree", 9, 1, "fleby,o_cap", mode="shape", cap_s=900), SW("export-sizes", kmax=21, list_max=8192, as_gb=8)],
 }
 SPECS["C20"] = {
-    "quick": [K("ktree", 4, 3, KA + ",o_log"), K("ktree", 3, 3, KA + ",o_log"), K("klist", 3, 3, KA + ",o_log"), K("ktree", 3, 2, KA + ",o_log", mode="full")],
+    "quick": [K("ktree", 3, 3, KA + ",o_log", tbase=251), K("klist", 3, 3, KA + ",o_log", tbase=251), K("ktree", 4, 3, KA + ",o_log"), K("ktree", 3, 3, KA + ",o_log"), K("klist", 3, 3, KA + ",o_log"), K("ktree", 3, 2, KA + ",o_log", mode="full")],
     "thorough": [K("ktree", 4, 4, KA + ",o_log"), K("klist", 4, 4, KA + ",o_log"), K("ktree", 5, 2, KA + ",o_log", cap_s=900), K("ktree", 8, 0, "fleby,get,clear,o_log", mode="shape")],
 }
 
@@ -134,7 +137,7 @@ SPECS["C12"] = {
 LISTS_M = MAW + ",o_ref,o_handle,o_pos,o_rb,o_neigh"
 LISTS_K = KA + ",o_pred,o_get,o_export,o_log,o_rb"
 SPECS["C13"] = {
-    "quick": [M("maplist", 6, LISTS_M), M("setlist", 6, LISTS_M), M("maplist", 5, LISTS_M, pay="heap", hint=0), K("klist", 4, 4, LISTS_K), K("klist", 3, 3, LISTS_K, hint=0)],
+    "quick": [K("klist", 4, 3, LISTS_K, tbase=251), M("maplist", 6, LISTS_M), M("setlist", 6, LISTS_M), M("maplist", 5, LISTS_M, pay="heap", hint=0), K("klist", 4, 4, LISTS_K), K("klist", 3, 3, LISTS_K, hint=0)],
     "thorough": [M("maplist", 8, LISTS_M), M("setlist", 8, LISTS_M), M("setlist", 6, LISTS_M, pay="heap", hint=0), K("klist", 5, 4, LISTS_K, cap_s=900), K("klist", 4, 5, LISTS_K)],
 }
 
@@ -171,7 +174,7 @@ SPECS["C18"] = {
 ALL_M = MAW + ",o_ref,o_handle,o_neigh,o_hstab"
 ALL_K = KA + ",o_pred,o_get,o_export"
 SPECS["C10"] = {
-    "quick": [K("ktree", 4, 2, ALL_K, crash=1), M("maptree", 5, ALL_M, crash=1), M("settree", 5, ALL_M, crash=1), M("maplist", 5, ALL_M, crash=1), M("setlist", 5, ALL_M, crash=1),
+    "quick": [K("ktree", 3, 3, ALL_K, crash=1, tbase=251), K("klist", 3, 3, ALL_K, crash=1, tbase=251), K("ktree", 4, 2, ALL_K, crash=1), M("maptree", 5, ALL_M, crash=1), M("settree", 5, ALL_M, crash=1), M("maplist", 5, ALL_M, crash=1), M("setlist", 5, ALL_M, crash=1),
               M("maptree", 4, ALL_M, crash=1, hint=0, pay="heap"), M("settree", 4, ALL_M, crash=1, hint=1, pay="bare"), M("maptree", 10, "del,delh,clear,o_handle", mode="shape", crash=1, hint=9), M("settree", 10, "del,delh,clear,o_neigh", mode="shape", crash=1, hint=9), M("settree", 3, ALL_M, crash=1, hint=64),
               K("ktree", 3, 3, ALL_K, crash=1), K("klist", 3, 3, ALL_K, crash=1), K("ktree", 3, 2, ALL_K, crash=1, hint=0), K("ktree", 3, 2, ALL_K, crash=1, hint=64), K("ktree", 8, 0, "fleby,get,clear,o_export", mode="shape", crash=1, hint=9),
               S(0, 16, SA + ",o_query", crash=1), S(0, 31, SA + ",o_query", crash=1), S(-7, 92, SA + ",o_query", crash=1), S(-(1 << 31), (1 << 31) - 1, SA + ",o_query", crash=1),
